@@ -22,7 +22,9 @@ func init() {
 			"endpointIptablesChain the failsafe jump is unconditional, exists whenever a failsafe chain is given, and no policy/profile jump or deny rule is placed before it. (failsafe) failsafeInChain/" +
 			"failsafeOutChain only emit Allow rules whose protocol/port come from the configured inbound/outbound list appropriate for the chain and port side, and both chains are rendered for the filter, " +
 			"mangle and raw tables. (tunnel) in filterInputChain each allow-from-host-IP-set rule for IPIP/VXLAN is immediately followed by a deny whose match is the allow's match without the source set, " +
-			"and nothing but tunnel rules is placed before them. (unknown) INPUT sends InInterface(workload prefix+wildcard) to the workload-to-host chain before any host-endpoint accept, FORWARD " +
+			"and nothing but tunnel rules is placed before them. (tunnelindep) whether a tunnel filter pair is rendered depends only on its own enable flag and the IP version: the CFG of filterInputChain is " +
+			"evaluated under every assignment of the bool config fields gating a tunnel filter × every IP version compared, and a flag that is necessary for another tunnel's filter must be a don't-care for this one " +
+			"(independent ifs merged into a switch/else-if chain, '&& !otherTunnel' conjuncts and early exits under another tunnel's flag are reported). (unknown) INPUT sends InInterface(workload prefix+wildcard) to the workload-to-host chain before any host-endpoint accept, FORWARD " +
 			"jumps to the from-workload dispatch chain for the same match. (wl2host) the workload-to-host chain jumps unconditionally to the from-workload dispatch chain before applying the configured " +
 			"endpoint-to-host action.",
 		NotDecided: "Whole-path verdicts over all tables; contents of the dispatch chains (C10); that the kernel hooks are wired to these chains; conntrack rules and QoS rules that precede the failsafe jump by design; " +
@@ -65,6 +67,12 @@ func init() {
 				Old: "\t\t\t\t\tDestPorts(uint16(r.Config.VXLANPort)).\n\t\t\t\t\tDestAddrType(generictables.AddrTypeLocal),\n\t\t\t\tAction:  r.IptablesFilterDenyAction(),", New: "\t\t\t\t\tDestPorts(uint16(r.Config.WireguardListeningPortV6)).\n\t\t\t\t\tDestAddrType(generictables.AddrTypeLocal),\n\t\t\t\tAction:  r.IptablesFilterDenyAction(),", Expect: "C40.tunnel/"},
 			{Name: "already-accepted packets bypass the tunnel filters", File: "felix/rules/static.go",
 				Old: "func (r *DefaultRuleRenderer) filterInputChain(ipVersion uint8) *generictables.Chain {\n\tvar inputRules []generictables.Rule\n", New: "func (r *DefaultRuleRenderer) filterInputChain(ipVersion uint8) *generictables.Chain {\n\tvar inputRules []generictables.Rule\n\tinputRules = append(inputRules, r.acceptAlreadyAccepted()...)\n", Expect: "C40.tunnel/first"},
+			{Name: "IPv4 VXLAN filter chained as else-if of the IPIP filter", File: "felix/rules/static.go",
+				Old: "\t}\n\n\tif ipVersion == 4 && r.VXLANEnabled {\n\t\t// IPv4 VXLAN is enabled, filter incoming", New: "\t} else if ipVersion == 4 && r.VXLANEnabled {\n\t\t// IPv4 VXLAN is enabled, filter incoming", Expect: "C40.tunnelindep/DefaultRuleRenderer.filterInputChain"},
+			{Name: "IPv6 VXLAN filter skipped when IPv4 VXLAN is on", File: "felix/rules/static.go",
+				Old: "\tif ipVersion == 6 && r.VXLANEnabledV6 {\n\t\t// IPv6 VXLAN is enabled, filter incoming", New: "\tif ipVersion == 6 && r.VXLANEnabledV6 && !r.VXLANEnabled {\n\t\t// IPv6 VXLAN is enabled, filter incoming", Expect: "C40.tunnelindep/DefaultRuleRenderer.filterInputChain"},
+			{Name: "IPIP filter only rendered for IPIP-only clusters", File: "felix/rules/static.go",
+				Old: "\tif ipVersion == 4 && r.IPIPEnabled {\n\t\t// IPIP is enabled, filter incoming", New: "\tif ipVersion == 4 && r.IPIPEnabled && !r.VXLANEnabled {\n\t\t// IPIP is enabled, filter incoming", Expect: "C40.tunnelindep/DefaultRuleRenderer.filterInputChain"},
 			{Name: "INPUT accepts raw-accepted packets before workload dispatch", File: "felix/rules/static.go",
 				Old: "\t// Apply our policy to packets coming from workload endpoints.\n\tfor _, prefix := range r.WorkloadIfacePrefixes {\n\t\tlog.WithField(\"ifacePrefix\", prefix).Debug(\"Adding workload match rules\")\n\t\tifaceMatch := prefix + r.wildcard\n\t\tinputRules = append(inputRules, generictables.Rule{\n\t\t\tMatch:  r.NewMatch().InInterface(ifaceMatch),\n\t\t\tAction: r.GoTo(ChainWorkloadToHost),\n\t\t})\n\t}\n\n\t// Now we only have ingress host endpoint processing to do.  The ingress host endpoint may\n\t// have already accepted this packet in the raw or mangle table.  In that case, accept the\n\t// packet immediately here too.\n\tinputRules = append(inputRules, r.acceptAlreadyAccepted()...)\n",
 				New: "\tinputRules = append(inputRules, r.acceptAlreadyAccepted()...)\n\tfor _, prefix := range r.WorkloadIfacePrefixes {\n\t\tifaceMatch := prefix + r.wildcard\n\t\tinputRules = append(inputRules, generictables.Rule{\n\t\t\tMatch:  r.NewMatch().InInterface(ifaceMatch),\n\t\t\tAction: r.GoTo(ChainWorkloadToHost),\n\t\t})\n\t}\n", Expect: "C40.unknown/input"},
@@ -101,6 +109,8 @@ type c40Model struct {
 	funcs []*ssa.Function
 	lits  map[*ssa.Function][]*c10Lit
 	deny  *types.Func
+	// tunnel allow-from-host-set literals of filterInputChain, found by checkTunnel
+	tunnelAllows []*c10Lit
 }
 
 func (m *c40Model) litsOf(fn *ssa.Function) []*c10Lit {
@@ -138,6 +148,7 @@ func runC40(c *Ctx) {
 	c.Rule("C40.failsafefirst", "E-ORDER", "in endpointIptablesChain the failsafe jump exists under failsafeChain != \"\", is unconditional, and no policy/profile jump or deny rule is placed before it", 3)
 	c.Rule("C40.failsafe", "E-CONST", "failsafeIn/OutChain rule literals: Action Allow; Protocol/port taken from the inbound/outbound failsafe list that fits chain and port side; source-port variants only under table==raw; both chains rendered for filter, mangle, raw", 10)
 	c.Rule("C40.tunnel", "E-CONST/E-ORDER", "filterInputChain: each allow-from-host-set tunnel rule is immediately followed by a deny with the same match minus the source set; only tunnel rules precede them", 4)
+	c.Rule("C40.tunnelindep", "E-GUARD", "filterInputChain: whether a tunnel filter pair (IPIP, IPv4 VXLAN, IPv6 VXLAN) is rendered depends only on its own enable flag and the IP version: for every IP version and every assignment of the tunnel enable flags, flipping a flag that enables ANOTHER tunnel's filter never changes whether this one is rendered", 3)
 	c.Rule("C40.unknown", "E-CONST/E-ORDER", "INPUT: InInterface(workload prefix+wildcard) → GoTo(workload-to-host chain) before any host-endpoint accept; FORWARD: same match → Jump(from-workload dispatch)", 2)
 	c.Rule("C40.wl2host", "E-ORDER", "workload-to-host chain: unconditional Jump(from-workload dispatch) placed before the configured endpoint-to-host action rules", 2)
 
@@ -145,6 +156,7 @@ func runC40(c *Ctx) {
 	m.checkTuples()
 	m.checkFailsafeChains()
 	m.checkTunnel()
+	m.checkTunnelIndep()
 	m.checkUnknown()
 	m.checkWl2Host()
 }
@@ -564,6 +576,7 @@ func (m *c40Model) checkTunnel() {
 		}
 		n++
 		tunnel[l] = true
+		m.tunnelAllows = append(m.tunnelAllows, l)
 		set := path(mt.Has("SourceIPSet").Args[0])
 		proto := path(mt.Has("ProtocolNum").Args[0])
 		key := fmt.Sprintf("C40.tunnel/%s/%s", fnName(fn), c40TunnelName(mt))
@@ -655,6 +668,344 @@ func (m *c40Model) checkTunnel() {
 	})
 	sort.Strings(firstBad)
 	c.Check(len(firstBad) == 0, "C40.tunnel/first/"+fnName(fn), p.Pos(fn.Pos()), "only tunnel allow/deny pairs precede tunnel rules in the INPUT chain", strings.Join(firstBad, "; "))
+}
+
+// ------------------------------------------------------------ tunnel indep --
+
+// c40Env is one configuration under which the CFG of a renderer is evaluated:
+// truth values of bool config fields and the value of one integer parameter
+// (the IP version).
+type c40Env struct {
+	flags map[*types.Var]bool
+	param *ssa.Parameter
+	pval  constant.Value
+}
+
+// c40FlagOf: v is a load of a bool struct field (r.IPIPEnabled, r.Config.X …).
+func c40FlagOf(v ssa.Value) *types.Var {
+	if b, ok := v.Type().Underlying().(*types.Basic); !ok || b.Kind() != types.Bool {
+		return nil
+	}
+	switch v.(type) {
+	case *ssa.UnOp, *ssa.Field:
+		return fieldVar(v)
+	}
+	return nil
+}
+
+// c40ParamCmp: bo compares a parameter (through conversions) with a constant.
+func c40ParamCmp(bo *ssa.BinOp) (*ssa.Parameter, constant.Value) {
+	strip := func(v ssa.Value) ssa.Value {
+		for {
+			switch x := v.(type) {
+			case *ssa.Convert:
+				v = x.X
+			case *ssa.ChangeType:
+				v = x.X
+			default:
+				return v
+			}
+		}
+	}
+	for _, xy := range [2][2]ssa.Value{{bo.X, bo.Y}, {bo.Y, bo.X}} {
+		if pa, ok := strip(xy[0]).(*ssa.Parameter); ok {
+			if k, ok := constOf(xy[1]); ok {
+				return pa, k
+			}
+		}
+	}
+	return nil, nil
+}
+
+// c40EvalCond: truth value of a branch condition under env; known=false for
+// anything that is not a config flag, a parameter/constant comparison or a constant.
+func c40EvalCond(cond ssa.Value, env *c40Env) (val, known bool) {
+	c, pol := stripNot(cond, true)
+	if k, ok := c.(*ssa.Const); ok && k.Value != nil && k.Value.Kind() == constant.Bool {
+		return constant.BoolVal(k.Value) == pol, true
+	}
+	if fv := c40FlagOf(c); fv != nil {
+		if v, ok := env.flags[fv]; ok {
+			return v == pol, true
+		}
+		return false, false
+	}
+	if bo, ok := c.(*ssa.BinOp); ok && (bo.Op == token.EQL || bo.Op == token.NEQ) {
+		if pa, k := c40ParamCmp(bo); pa != nil && pa == env.param && env.pval != nil {
+			eq := constant.Compare(k, token.EQL, env.pval)
+			if bo.Op == token.NEQ {
+				eq = !eq
+			}
+			return eq == pol, true
+		}
+	}
+	return false, false
+}
+
+// c40Reach: blocks reachable from the entry under env.  Branches whose condition
+// cannot be evaluated are taken both ways (may=true) or not at all (may=false).
+func c40Reach(fn *ssa.Function, env *c40Env, may bool) map[*ssa.BasicBlock]bool {
+	seen := map[*ssa.BasicBlock]bool{}
+	st := []*ssa.BasicBlock{fn.Blocks[0]}
+	for len(st) > 0 {
+		b := st[len(st)-1]
+		st = st[:len(st)-1]
+		if seen[b] {
+			continue
+		}
+		seen[b] = true
+		if ifi, ok := b.Instrs[len(b.Instrs)-1].(*ssa.If); ok && len(b.Succs) == 2 {
+			v, known := c40EvalCond(ifi.Cond, env)
+			switch {
+			case known && v:
+				st = append(st, b.Succs[0])
+			case known:
+				st = append(st, b.Succs[1])
+			case may:
+				st = append(st, b.Succs...)
+			}
+			continue
+		}
+		st = append(st, b.Succs...)
+	}
+	return seen
+}
+
+// checkTunnelIndep: "tunnelled packets from non-cluster sources are dropped" must
+// hold for every combination of encapsulation settings, so the presence of one
+// tunnel's allow/deny pair may depend on its own enable flag and on the IP
+// version only.  The CFG of filterInputChain is evaluated under every assignment
+// of the bool config fields that gate any tunnel filter × every IP version the
+// function distinguishes; a flag that is necessary for ANOTHER tunnel's filter
+// must be a don't-care for this one.  (Catches: independent ifs merged into a
+// switch / else-if chain, "&& !otherTunnel" conjuncts, early returns under
+// another tunnel's flag.)
+func (m *c40Model) checkTunnelIndep() {
+	c, p := m.c, m.p
+	fn := m.fn("filterInputChain")
+	if len(m.tunnelAllows) == 0 {
+		c.Lost("%s: no tunnel allow literal recorded by C40.tunnel", fnName(fn))
+	}
+	type tun struct {
+		lit    *c10Lit
+		name   string
+		blocks []*ssa.BasicBlock
+	}
+	var tuns []*tun
+	anc := map[*ssa.BasicBlock]bool{} // blocks from which some tunnel block is reachable
+	for _, l := range m.tunnelAllows {
+		mt, _ := l.Match()
+		t := &tun{lit: l, name: c40TunnelName(mt)}
+		for _, a := range c10AppendsOf(l) {
+			t.blocks = append(t.blocks, a.Block())
+		}
+		if len(t.blocks) == 0 {
+			if in, ok := l.Base.(ssa.Instruction); ok && in.Block() != nil {
+				t.blocks = append(t.blocks, in.Block())
+			}
+		}
+		if len(t.blocks) == 0 {
+			c.Lost("%s: cannot place tunnel literal %s in the CFG", fnName(fn), t.name)
+		}
+		tuns = append(tuns, t)
+	}
+	for _, b := range fn.Blocks {
+		r := blockReach(b)
+		for _, t := range tuns {
+			for _, tb := range t.blocks {
+				if r[tb] {
+					anc[b] = true
+				}
+			}
+		}
+	}
+	// the flags and the parameter values that can influence a tunnel block
+	var flags []*types.Var
+	haveFlag := map[*types.Var]bool{}
+	var param *ssa.Parameter
+	var pvals []constant.Value
+	multiParam := false
+	for _, b := range fn.Blocks {
+		if !anc[b] {
+			continue
+		}
+		ifi, ok := b.Instrs[len(b.Instrs)-1].(*ssa.If)
+		if !ok {
+			continue
+		}
+		cnd, _ := stripNot(ifi.Cond, true)
+		if fv := c40FlagOf(cnd); fv != nil && !haveFlag[fv] {
+			haveFlag[fv] = true
+			flags = append(flags, fv)
+		}
+		if bo, ok := cnd.(*ssa.BinOp); ok && (bo.Op == token.EQL || bo.Op == token.NEQ) {
+			if pa, k := c40ParamCmp(bo); pa != nil {
+				if param != nil && param != pa {
+					multiParam = true
+				}
+				param = pa
+				dup := false
+				for _, o := range pvals {
+					if constant.Compare(o, token.EQL, k) {
+						dup = true
+					}
+				}
+				if !dup {
+					pvals = append(pvals, k)
+				}
+			}
+		}
+	}
+	sort.Slice(flags, func(i, j int) bool { return flags[i].Name() < flags[j].Name() })
+	site := p.Pos(fn.Pos())
+	if multiParam || len(flags) > 10 || len(flags) == 0 {
+		for _, t := range tuns {
+			c.Undecided(fmt.Sprintf("C40.tunnelindep/%s/%s", fnName(fn), t.name), site,
+				"cannot enumerate the configurations gating the tunnel filters (%d bool config flags, several parameters compared: %v)", len(flags), multiParam)
+		}
+		return
+	}
+	if len(pvals) == 0 {
+		pvals = []constant.Value{nil}
+	}
+	nA := 1 << len(flags)
+	envOf := func(pv constant.Value, mask int) *c40Env {
+		e := &c40Env{flags: map[*types.Var]bool{}, param: param, pval: pv}
+		for i, f := range flags {
+			e.flags[f] = mask&(1<<i) != 0
+		}
+		return e
+	}
+	hits := func(r map[*ssa.BasicBlock]bool, t *tun) bool {
+		for _, b := range t.blocks {
+			if r[b] {
+				return true
+			}
+		}
+		return false
+	}
+	// reach[t][pv][mask]
+	reach := make([][][]bool, len(tuns))
+	undecided := make([]bool, len(tuns))
+	for ti := range tuns {
+		reach[ti] = make([][]bool, len(pvals))
+		for vi := range pvals {
+			reach[ti][vi] = make([]bool, nA)
+		}
+	}
+	for vi, pv := range pvals {
+		for mask := 0; mask < nA; mask++ {
+			e := envOf(pv, mask)
+			may, must := c40Reach(fn, e, true), c40Reach(fn, e, false)
+			for ti, t := range tuns {
+				reach[ti][vi][mask] = hits(may, t)
+				if hits(may, t) != hits(must, t) {
+					undecided[ti] = true
+				}
+			}
+		}
+	}
+	// own[t] = flags that are true in every configuration rendering t (for some IP version rendering it at all)
+	own := make([]map[int]bool, len(tuns))
+	ever := make([]bool, len(tuns))
+	for ti := range tuns {
+		own[ti] = map[int]bool{}
+		for vi := range pvals {
+			any := false
+			nec := map[int]bool{}
+			for i := range flags {
+				nec[i] = true
+			}
+			for mask := 0; mask < nA; mask++ {
+				if !reach[ti][vi][mask] {
+					continue
+				}
+				any = true
+				for i := range flags {
+					if mask&(1<<i) == 0 {
+						delete(nec, i)
+					}
+				}
+			}
+			if any {
+				ever[ti] = true
+				for i := range nec {
+					own[ti][i] = true
+				}
+			}
+		}
+	}
+	pvStr := func(pv constant.Value) string {
+		if pv == nil || param == nil {
+			return ""
+		}
+		return fmt.Sprintf("%s=%s, ", param.Name(), pv.ExactString())
+	}
+	for ti, t := range tuns {
+		key := fmt.Sprintf("C40.tunnelindep/%s/%s", fnName(fn), t.name)
+		tsite := p.Pos(t.lit.Pos())
+		switch {
+		case !ever[ti]:
+			c.Violate(key, tsite, "the tunnel filter pair is unreachable under every assignment of %v: tunnelled packets of this kind are never filtered", c40FlagNames(flags, nil))
+			continue
+		case undecided[ti]:
+			c.Undecided(key, tsite, "the tunnel filter is control-dependent on a condition that is not a bool config field or a parameter comparison")
+			continue
+		case len(own[ti]) == 0:
+			c.Undecided(key, tsite, "no enable flag found for this tunnel filter (flags considered: %v)", c40FlagNames(flags, nil))
+			continue
+		}
+		var bad []string
+		for oi, o := range tuns {
+			if oi == ti {
+				continue
+			}
+			for fi := range own[oi] {
+				if own[ti][fi] {
+					continue
+				}
+				bit := 1 << fi
+			scan:
+				for vi, pv := range pvals {
+					for mask := 0; mask < nA; mask++ {
+						if mask&bit != 0 || reach[ti][vi][mask] == reach[ti][vi][mask|bit] {
+							continue
+						}
+						on, off := mask|bit, mask
+						if reach[ti][vi][on] {
+							on, off = off, on
+						}
+						// `on` is the configuration in which the filter is missing
+						bad = append(bad, fmt.Sprintf("with %s%s the pair is rendered, but with %s=%v (the flag enabling the %s filter) and everything else unchanged it is not",
+							pvStr(pv), c40FlagNames(flags, &off), flags[fi].Name(), on&bit != 0, o.name))
+						break scan
+					}
+				}
+			}
+		}
+		sort.Strings(bad)
+		var ownNames []string
+		for fi := range own[ti] {
+			ownNames = append(ownNames, flags[fi].Name())
+		}
+		sort.Strings(ownNames)
+		c.Check(len(bad) == 0, key, tsite,
+			fmt.Sprintf("rendered iff %v (and the IP version) — independent of the other tunnels' flags over %d configurations", ownNames, nA*len(pvals)),
+			"tunnel filter depends on another tunnel's enable flag, so tunnelled packets from non-cluster sources are not dropped in that configuration: "+strings.Join(bad, "; "))
+	}
+}
+
+// c40FlagNames renders a flag assignment ("A=true B=false"); mask nil = names only.
+func c40FlagNames(flags []*types.Var, mask *int) string {
+	var out []string
+	for i, f := range flags {
+		if mask == nil {
+			out = append(out, f.Name())
+		} else {
+			out = append(out, fmt.Sprintf("%s=%v", f.Name(), *mask&(1<<i) != 0))
+		}
+	}
+	return strings.Join(out, " ")
 }
 
 func c40TunnelName(mt c10Match) string {
